@@ -56,6 +56,54 @@ CHECKS = {
              "at request 0 and at 0..3), real OS entropy with logged grants",
         assumptions=["in-process link-time interposition of getentropy observes exactly what rand::get_entropy receives"],
     ),
+    "C03": dict(
+        level="model_checking",
+        mc=[dict(module="MC_Bytes", workers=16)],
+        gen=[dict(module="Gen_C03", slices=dict(quick=8, thorough=16))],
+        rule="MC_Bytes: limb arithmetic (add, sub, cmp, add-mod, small mul/div, decimal/hex conversion) equals natural "
+             "number arithmetic exhaustively for 3 limbs; Gen_C03: seeds of length 1/16/32/64/65/128 (PRNG, all-FF, "
+             "all-zero) x components {0,1,2,44,60,255,256,65535,65536,2^24-1,2^24,2^31-2,2^31-1} x {hardened, "
+             "normal}: exhaustive depth 1 (26) and 2 (676), PRNG walks to depth 10",
+        assumptions=["HMAC-SHA512 and secp256k1 point multiplication are trusted Java primitives"],
+    ),
+    "C04": dict(
+        level="model_checking",
+        mc=[dict(module="MC_Bytes", workers=16)],
+        gen=[dict(module="Gen_C04", slices=dict(quick=4, thorough=16))],
+        rule="Gen_C04: secrets of every length 0..64 x {small integer left-padded, all-FF, PRNG}; scalars 1,2,3,n-2,n-1,"
+             "2^255,2^128; invalid 0,n,n+1,2^256-1; PRNG interior scalars; public key, address and EIP-55 casing "
+             "compared with Ecdsa.tla",
+        assumptions=["secp256k1 point multiplication and Keccak-256 are trusted Java primitives"],
+    ),
+    "C05": dict(
+        level="model_checking",
+        mc=[dict(module="MC_Bytes", workers=16)],
+        gen=[dict(module="Gen_C05", slices=dict(quick=8, thorough=16))],
+        rule="Gen_C05: keys {1,2,n-1,ganache} x digests {0,1,n-1,n,n+1,2^256-1,2^255} and PRNG (key, digest) pairs; "
+             "every signature validated for range, low-s, ECDSA verification, recovery = signer, equality with the "
+             "RFC 6979 signature of Ecdsa.tla (digest < n), purity",
+        assumptions=["RFC 6979 nonce, modular inverse/product and curve arithmetic are trusted Java primitives"],
+    ),
+    "C14": dict(
+        level="model_checking",
+        mc=[dict(module="MC_HdPath", workers=16)],
+        gen=[dict(module="Gen_C14", slices=dict(quick=8, thorough=16))],
+        rule="MC_HdPath: classification total/exclusive and print/parse inverse over every string up to length 5 over "
+             "{m / ' 0 1 9 - . + SPACE}; Gen_C14: every such string up to length 4 (quick) / 6 (thorough) parsed by the "
+             "implementation, boundary indices (2^31-1, 2^31, 2^31+1, 2^32-1, 2^32, 2^64, 10^30) normal/hardened at "
+             "depths 1..5 parsed and derived, named spellings, for_index at the boundaries",
+        assumptions=[],
+    ),
+    "C15": dict(
+        level="model_checking",
+        mc=[dict(module="MC_SigText", workers=8)],
+        gen=[dict(module="Gen_C15", slices=dict(quick=8, thorough=16))],
+        rule="MC_SigText: Parse(Print(sig)) = sig with and without prefix for boundary scalars x parity, malformed "
+             "classes rejected; Gen_C15: spec-printed signatures (as printed / without 0x / open spellings), every "
+             "length 0..140, non-hex in each region, v in {0,1,26,29,255}, r/s in {0,n,n+1,2^256-1,1,n-1}; "
+             "CLI sessions sign --signature-only -> hash --signature vs sign (Gen_C15cli)",
+        assumptions=[],
+    ),
 }
 
 # Text for MANIFEST.json (tools/mkmanifest.py)
@@ -89,6 +137,31 @@ MANIFEST_TEXT = {
              "of one grant, a refusal forces an error, unsupported lengths are refused, the phrase parses back.",
         design_ref="6 (C12)", note=_TRUST,
         technique="TLA+ environment model + TLC trace validation with fault injection at every request"),
+    "C03": dict(
+        text="The BIP-32 CKDpriv step is a TLA+ action (data layout, Ser32 with hardened bit, IL < n, (IL + k) mod n "
+             "by limb arithmetic, chain-code carry); derivations along generated paths by the real library are "
+             "validated by TLC against the fold of that action.",
+        design_ref="6 (C03)", note=_TRUST + " Limb arithmetic is checked against natural-number arithmetic by MC_Bytes.",
+        technique="TLA+ step-machine spec + TLC trace validation"),
+    "C04": dict(
+        text="Acceptance of secrets by length/range, the 65-byte public key, the address slice and the EIP-55 casing "
+             "are TLA+ definitions over the curve/Keccak primitives; every key the library builds from the generated "
+             "byte strings is validated by TLC.",
+        design_ref="6 (C04)", note=_TRUST, technique="TLA+ functional spec + TLC trace validation"),
+    "C05": dict(
+        text="Every signature produced by the library is validated by TLC for range, low-s, verification, recovery "
+             "of the signer and equality with the spec's RFC 6979 signature (low-s flip and parity flip in TLA+).",
+        design_ref="6 (C05)", note=_TRUST, technique="TLA+ functional spec + TLC trace validation"),
+    "C14": dict(
+        text="The path grammar is a TLA+ classifier (accept / reject / open) model-checked for totality and "
+             "print-parse inversion; every short string over the path alphabet and all boundary indices are parsed, "
+             "printed and derived by the real library and validated by TLC, including that no accepted text derives "
+             "the key of a different canonical path.",
+        design_ref="6 (C14)", note=_TRUST, technique="TLC exhaustive model check of the grammar + trace validation"),
+    "C15": dict(
+        text="Signature text printer/parser are TLA+ definitions, model-checked for inversion; the library's "
+             "Display/FromStr and the CLI sign/hash interoperation sessions are validated by TLC against them.",
+        design_ref="6 (C15)", note=_TRUST, technique="TLC model check + trace validation of library calls and CLI sessions"),
     "C07": dict(
         text="TLC proves on the specification (MC_Rlp, exhaustive over a bounded structurally complete universe) that "
              "the strict decoder inverts the encoder and rejects every non-canonical variant; the implementation is "
